@@ -26,7 +26,7 @@ MANIFEST = {
     "note": "Ground acyclic fragment: harness/ground_util.py records the permutation the hook applied to every batch of sibling "
             "clauses (wrapper around engine_stack._verif_shuffle) and hands it to the model. "
             "Trusted: harness, hook in engine_stack.py (add-only, off by default). Known finding F1 (false NegativeCycle, "
-            "schedule dependent) is reported as KNOWN-FINDING.",
+            "schedule dependent) is reported as KNOWN-FINDING. First-order sub-phase (harness/groundfo_util.py): programs with variables against ProbLogModel/GroundFO.lean, exact correspondence under the recorded schedule / history; the semantic statement (CorrectFO) is checked per program by Drivers.GroundFOCheck under the recorded and an arbitrary schedule, proved only structurally (C01GroundFO.*_partial).",
     "design_ref": "DESIGN.md §6 C03, §7",
 }
 
@@ -50,6 +50,9 @@ def run(ctx):
     # recorded schedule) and schedule independence is a theorem (C03_ground_schedule_independent)
     import ground_util
     gerr = ground_util.guarded(ctx, "sched", 200, 6000)
+    import groundfo_util           # the same on programs WITH variables (first-order model, exact correspondence)
+    gerr2 = groundfo_util.guarded(ctx, "sched", 150, 5000)
+    gerr = gerr or gerr2
     rc = cfgprop.run(ctx, MODULE, THEOREMS, variants, nq=50, nt=700, level="other", gen_kwargs={"disjunction": True},
                      explanation="Schedules are explored (seeded), not proved, on general programs; every schedule is compared "
                                  "with the Lean specification. On ground programs without recursion the engine is modelled "
